@@ -41,6 +41,13 @@ def runs(tier):
 
 # ----------------------------------------------------------------------------- corruption generation
 
+PLAUSIBLE_RULE_KEYS = ['name', 'match_expr', 'line_number', 'let_bindings', 'fields', 'pattern', 'description', 'filter', 'tag',
+                       'sub_category', 'amount', 'source', 'notes', 'is_categorization_rule', 'has_merchant', 'id', 'type', 'regex',
+                       'mode', 'rule', 'matches', 'variables', 'transforms', 'Name', 'MATCH_EXPR']
+PLAUSIBLE_VIEW_KEYS = ['name', 'filter_expr', 'filter_ast', 'variables', 'line_number', 'match', 'category', 'title', 'desc', 'where',
+                       'tags', 'priority', 'Name', 'global_variables', 'sections']
+
+
 def corruptions_rules(rng, model, text, linemap, eol):
     """Yield (class, position, new_text, allowed_lines) for a merchants.rules rendering."""
     lines = text.split(eol)
@@ -69,6 +76,17 @@ def corruptions_rules(rng, model, text, linemap, eol):
         key, rest = old.split(':', 1)
         bad = key[:-1] + ('x' if key[-1:] != 'x' else 'y') + 'q'
         yield 'unknown-key', pos(i), put(ln, bad + ':' + rest), {ln, hdr}
+        # ... and to a word that is no property of the file format although the implementation may well know it (attribute
+        # names of the rule objects, names used by the other file kinds, near misses)
+        ind = key[:len(key) - len(key.lstrip())]
+        plausible = ind + rng.choice(PLAUSIBLE_RULE_KEYS)
+        if rng.random() < 0.5:
+            yield 'unknown-key', pos(i), put(ln, plausible + ':' + rest), {ln, hdr}
+        else:
+            # as an extra line of an otherwise complete section
+            out = list(lines)
+            out.insert(ln, plausible + ': ' + rng.choice(['Other', 'contains("X")', '5', 'a, b']))
+            yield 'unknown-key', pos(i), eol.join(out), {ln + 1, hdr}
         # invalid expression in match
         inv = rng.choice(INVALID_EXPRS)
         old = lines[ml - 1]
@@ -119,6 +137,9 @@ def corruptions_views(rng, model, text, linemap, eol):
         old = lines[fl - 1]
         ind = old[:len(old) - len(old.lstrip())]
         yield 'unknown-key', pos(i), put(fl, ind + 'fliter: ' + v['filter']), {fl, hdr}
+        out = list(lines)
+        out.insert(fl, ind + rng.choice(PLAUSIBLE_VIEW_KEYS) + ': ' + rng.choice(['Other', 'total > 5', '5']))
+        yield 'unknown-key', pos(i), eol.join(out), {fl + 1, hdr}
         yield 'invalid-filter-expr', pos(i), put(fl, ind + 'filter: ' + rng.choice(INVALID_EXPRS)), {fl, hdr}
         for j, (n, e) in enumerate(v['vars']):
             ln = linemap[('view', i, 'var%d' % j, 0)]
